@@ -276,3 +276,47 @@ func describeValue(v ssa.Value) string {
 	}
 	return v.Name() + " (" + v.String() + ")"
 }
+
+// c06GenerateEscape: in the $GENERATE template reader a backslash sets the escape flag for exactly the next
+// character: every branch taken because the flag is set clears it before returning. A flag that stays set makes
+// the following '$' (an iterator position) literal.
+func c06GenerateEscape(c *Ctx, r *Report) {
+	r.rule("C06.R5.generate-escape", 3, "every branch of generateReader.ReadByte taken on the escape flag clears the flag before it returns")
+	fn := c.ssaFunc("generateReader.ReadByte")
+	if fn == nil {
+		r.cerr("C06.R5.generate-escape", "generateReader.ReadByte", "function not found")
+		return
+	}
+	isClear := func(in ssa.Instruction) bool {
+		st, ok := in.(*ssa.Store)
+		if !ok || !readsField("generateReader", "escape")(st.Addr) {
+			return false
+		}
+		b, isB := constBool(st.Val)
+		return isB && !b
+	}
+	n := 0
+	allInstrs(fn, func(in ssa.Instruction) {
+		ifi, ok := in.(*ssa.If)
+		if !ok {
+			return
+		}
+		atom, pol := condAtom(ifi.Cond)
+		u, ok := atom.(*ssa.UnOp)
+		if !ok || u.Op != token.MUL || !readsField("generateReader", "escape")(u.X) {
+			return
+		}
+		n++
+		succ := ifi.Block().Succs[0]
+		if !pol {
+			succ = ifi.Block().Succs[1]
+		}
+		ok2, blk := mustPass(fn, succ, -1, isClear)
+		pos := c.pos(ifi.Pos())
+		where := ""
+		if blk != nil {
+			where = c.pos(blk.Instrs[len(blk.Instrs)-1].Pos())
+		}
+		r.check(ok2, "C06.R5.generate-escape", fmt.Sprintf("ReadByte:escape#%d", n), pos, "cleared", "the branch taken because the previous character was a backslash can return (%s) with the escape flag still set: the flag leaks onto the next character, so a following `$` is copied literally instead of being replaced by the iterator value", where)
+	})
+}
